@@ -972,6 +972,13 @@ def check_C05(tier):
                             label=lab + (", column-major memory layout" if which in (2, 4) else ""))
             for rid in range(n0, len(base.records)):
                 labels[rid] = lab
+    # inputs that do not have one common shape have no "shape of the inputs": the commands refuse them (whichever input differs, first or last)
+    ferr = Family("arerr", 0, L=0, laws=[])
+    gen_families([ferr])
+    add_tlc_runs(chk, [ferr])
+    serr = Session(chk, "C05", clauses={"ErrorClass", "UnexpectedError", "Shape"})
+    serr.add_family(ferr, variant=0, label="inputs of different shapes")
+    serr.finish()
     verdicts = validate(chk, base.records)
     chk.cov["distinct_nontrivial"] += len(base.nontrivial)
     # a case whose 1-D baseline is already rejected is another property's business (C03/C06/C07/C08)
